@@ -4,6 +4,11 @@ package main
 
 func checkC01(R *Run) {
 	R.rule("cursor", "every Read([]byte)(int, error) encoder: (R1) exactly one copy(p, buf[cursor:]) with cursor a field of the receiver; (R2) the only store to the cursor is cursor + n with n the copy's result, and no other receiver field is written (enumerated exception: User.Icon/Flags normalisation); (R3) the copy is guarded by cursor >= len(buf) → return 0, io.EOF; (R4) data is returned as (n, nil); (R5) buf does not depend on the cursor. From R1–R5: the concatenation of the chunks returned for ANY sequence of buffer sizes >= 1 equals buf, and at most len(buf)+1 calls are needed (induction on the cursor value)")
+	R.rule("decoder-alias", "a decoder that is handed a bufio.Scanner's token (scanner.Bytes(), which the next Scan or buffer refill overwrites) must copy what it keeps: it may not store a sub-slice of its argument in a receiver field")
+	R.rule("fresh-decoder", "a decoder that appends to a field of its receiver (Transaction.Write, FilePath.Write, FileResumeData.UnmarshalBinary) is only invoked on a value created for that decode: a local variable of the calling function, re-created on every iteration when the decode sits in a loop")
+	R.ruleDecoderAlias()
+	R.ruleFreshDecoder(nil)
+	R.floor("fresh-decoder", 8)
 	n := R.checkCursor("cursor", nil)
 	R.floor("cursor", 14)
 	_ = n
